@@ -47,8 +47,8 @@ def run_compiled(cases, tag, flavor, want, batch_size=150, keep=None):
         nb += 1
         mods = {}
         for cid in chunk:
-            rs = open(os.path.join(outdir, cid + ".rs")).read()
-            wgsl = open(os.path.join(outdir, cid + ".wgsl")).read()
+            rs = open(os.path.join(outdir, cid + ".rs"), newline="", encoding="utf-8").read()
+            wgsl = open(os.path.join(outdir, cid + ".wgsl"), newline="", encoding="utf-8").read()
             o = obs_by_id[cid]
             if not o.get("parsed", True) and "out" not in o:
                 # not even parsable by syn: cannot be a module file; record as a compile failure
